@@ -585,4 +585,56 @@ theorem iterErr_spine (m : IterErr) (hm : m ≠ .none) (hm2 : m ≠ .iterChild) 
     exact ⟨fun h => .ext p c h, fun h => by cases h with | ext _ _ h => exact h⟩
 
 
+
+/-! ### donors that hold more than the trie; the API function GetAllMissingNodes -/
+
+/-- `mergeDB` with a donor that may hold ANYTHING under keys the reference store does not use, and agrees with it on the
+    keys it does use -/
+theorem mergeDB_get_superset (v : Nat) (ref : Bytes → Option Bytes) (donor : List (Bytes × Repr)) (s : Store)
+    (hsub : ∀ k b b', ref k = some b → s.get k = some b' → b' = b)
+    (hdonor : ∀ e ∈ donor, ∀ b, ref e.1 = some b → encode e.2 = b) :
+    ∀ k b, ref k = some b → (s.get k = some b ∨ ∃ r, (k, r) ∈ donor) → (mergeDB v s donor).get k = some b := by
+  induction donor generalizing s with
+  | nil =>
+    intro k b hr h
+    rcases h with h | ⟨r, hm⟩
+    · simpa [mergeDB] using h
+    · cases hm
+  | cons e donor ih =>
+    have hsub' : ∀ k b b', ref k = some b → (s.put e.1 (encode e.2)).get k = some b' → b' = b := by
+      intro k b b' hr h
+      rw [Store.get_put] at h
+      by_cases hk : e.1 = k
+      · simp only [hk, if_true, Option.some.injEq] at h
+        rw [← h]; exact hdonor e (by simp) b (hk ▸ hr)
+      · simp only [hk, if_false] at h; exact hsub k b b' hr h
+    have hd' : ∀ e' ∈ donor, ∀ b, ref e'.1 = some b → encode e'.2 = b :=
+      fun e' h => hdonor e' (List.mem_cons_of_mem _ h)
+    intro k b hr h
+    rw [mergeDB_cons]
+    apply ih _ hsub' hd' k b hr
+    rcases h with h | ⟨r, hm⟩
+    · left
+      rw [Store.get_put]
+      by_cases hk : e.1 = k
+      · simp only [hk, if_true]
+        rw [hdonor e (by simp) b (hk ▸ hr)]
+      · simp only [hk, if_false]; exact h
+    · rcases List.mem_cons.mp hm with rfl | hm
+      · left
+        rw [Store.get_put]
+        simp only [if_true]
+        rw [hdonor (k, r) (by simp) b hr]
+      · right; exact ⟨r, hm⟩
+
+theorem getAllMissing_of_unfolds (get : Bytes → Option Bytes) (root : Bytes) (pt : PTree) (h : Unfolds get root pt) :
+    (get root = none → getAllMissing pt = none) ∧
+    (get root ≠ none → getAllMissing pt = some (allMissing pt)) := by
+  cases h with
+  | missing k hn => exact ⟨fun _ => rfl, fun hne => absurd hn hne⟩
+  | leaf k bs v o pre p val hg hd => exact ⟨fun hn => absurd (hg.symm.trans hn) (by simp), fun _ => rfl⟩
+  | full k bs v o ch val pch hg hd h1 h2 => exact ⟨fun hn => absurd (hg.symm.trans hn) (by simp), fun _ => rfl⟩
+  | ext k bs v o p ck c hg hd hc => exact ⟨fun hn => absurd (hg.symm.trans hn) (by simp), fun _ => rfl⟩
+
+
 end Verif.Partial
